@@ -2,7 +2,7 @@
 // one obligation per (wrapper, trait method). The harness list is generated on every run from the
 // method list of `trait Collect` in /repo (contracts/C09/plan.py); a method without a `cell!` arm does not
 // compile (=> undecided), so a method added to the trait later cannot be silently unforwarded.
-use crate::{collect::{Collect, Interest}, span, Event, Metadata, LevelFilter, Dispatch};
+use crate::{collect::Collect, span, Event, Metadata, Dispatch};
 use core::sync::atomic::{AtomicUsize, Ordering as AO};
 use core::any::TypeId;
 use core::ptr::NonNull;
